@@ -937,7 +937,8 @@ func runC05(r *Run, stratum string) *Violation {
 			return cacheTick/2 + time.Duration((h>>8)%5)*cacheTick/2
 		}
 	}
-	cacheSetVerify(false)
+	cacheSetVerify(w.backend != "memory" && g.Choose("verifycrc", 2) == 1) // deployment knob of the disk readers
+	defer cacheSetVerify(false)
 	w.ch = syncer.NewChannel(ccfg, "c05")
 	w.wr = newC05Driver("writer-owner")
 	for i := range w.rdr {
